@@ -75,4 +75,12 @@ PROPS = {
     "C15": dict(units=["worker", "errhook", "sources"], level="proof", assumptions=WORKER_ASSUME,
                 claim="throttle_collect proved by Verus: every filter error is sent to the error channel exactly once, in order, the event is not batched and collection continues; only a closed error channel is critical. error_hook / ErrorHook::{handle_crit,critical,elevate} proved: each received error handled exactly once, a raised critical is never ignored",
                 trusted="stand-ins in prelude/worker_env.rs, prelude/errhook_env.rs (error channel, OnceLock/Arc cell with ghost owner count, arbitrary error handler); Arc drops are not modelled (owner count at the time of handle_crit)"),
+    "C18": dict(units=["command", "task"], level="proof",
+                assumptions=["tokio::process::Command passes argv byte for byte to execvp; process-wrap wrappers (KillOnDrop, ProcessSession, ProcessGroup::leader, ResetSigmask) do what their names say",
+                             "string-like values are opaque and never inspected by the code under contract, so 'byte for byte' is identity of those values",
+                             "the head of interpret_command_args (shell selection from --shell/$SHELL, whitespace split of the shell string) is string code outside the verifier's reach: not decided",
+                             "what the child actually observes (environment, cwd after the spawn hook) is OS behaviour: the hook dataflow (hook output == spawned spawnable) is proved in unit task (C09+C18.spawn.*, respawn_seq)",
+                             "Windows raw_arg branch not verified"],
+                claim="Command::to_spawnable proved by Verus for all programs/argument vectors/options: argv and wrapper sequence equal the specification; tail of interpret_command_args proved (words -> program+args / joined command string, wrap mode -> group/session); spawn-hook dataflow proved in unit task",
+                trusted="stand-ins in prelude/command_env.rs (tokio Command recorder, process-wrap wrapper kinds)"),
 }
